@@ -22,16 +22,24 @@ variable {α β : Type}
 theorem FrameG.trans {c : Nat} {r0 r1 : Region} {m m1 m2 : Mem α} (h1 : FrameG c r0 m m1)
     (hreg : r1 = r0 ∨ ∃ id, r1 = .blk id ∧ m.nextId ≤ id) (h2 : FrameG c r1 m1 m2) : FrameG c r0 m m2 := by
   refine ⟨h2.cat.trans h1.cat, h2.hr.trans h1.hr, h2.wsLen.trans h1.wsLen,
-    fun c' hc => (h2.wsOther c' hc).trans (h1.wsOther c' hc), Nat.le_trans h1.nid h2.nid, fun hf => h2.fresh (h1.fresh hf), ?_⟩
-  intro r' hne hold
-  have hne1 : r' ≠ r1 := by
-    rcases hreg with hreg | ⟨id, hreg, hge⟩
-    · rw [hreg]; exact hne
-    · intro heq
-      have := hold id (heq.trans hreg)
-      omega
-  rw [h2.bufOther r' hne1 (fun id hid => Nat.lt_of_lt_of_le (hold id hid) h1.nid)]
-  exact h1.bufOther r' hne hold
+    fun c' hc => (h2.wsOther c' hc).trans (h1.wsOther c' hc), Nat.le_trans h1.nid h2.nid, fun hf => h2.fresh (h1.fresh hf), ?_, ?_⟩
+  · intro r' hne hold
+    have hne1 : r' ≠ r1 := by
+      rcases hreg with hreg | ⟨id, hreg, hge⟩
+      · rw [hreg]; exact hne
+      · intro heq
+        have := hold id (heq.trans hreg)
+        omega
+    rw [h2.bufOther r' hne1 (fun id hid => Nat.lt_of_lt_of_le (hold id hid) h1.nid)]
+    exact h1.bufOther r' hne hold
+  · intro j hne hlt
+    have hne1 : Region.blk j ≠ r1 := by
+      rcases hreg with hreg | ⟨id, hreg, hge⟩
+      · rw [hreg]; exact hne
+      · intro heq
+        rw [hreg] at heq; injection heq with heq
+        omega
+    exact (h2.cntOther j hne1 (Nat.lt_of_lt_of_le hlt h1.nid)).trans (h1.cntOther j hne hlt)
 
 theorem FrameL.trans {cfg : Cfg} {c : Nat} {r0 r1 : Region} {m m1 m2 : Mem α} (h1 : FrameL cfg c r0 m m1)
     (hreg : r1 = r0 ∨ ∃ id, r1 = .blk id ∧ m.nextId ≤ id) (h2 : FrameL cfg c r1 m1 m2) : FrameL cfg c r0 m m2 :=
@@ -864,14 +872,15 @@ theorem destroyAll_post {cfg : Cfg} {Ok : VB → Prop} (m : Mem α) (c : Nat) (x
 /-- `~Vector()`: the elements are destroyed and the heap block (if any) is returned: afterwards the block is gone, an inline
     buffer is all raw, no other region changed; never a fault. The law of the flavour's destructor is the explicit
     hypothesis `DtorSpec cfg w`. -/
-theorem destruct_post {cfg : Cfg} {Ok : VB → Prop} (m : Mem α) (c : Nat) (xs : List α) (w : VB)
+theorem destruct_post_cnt {cfg : Cfg} {Ok : VB → Prop} (m : Mem α) (c : Nat) (xs : List α) (w : VB)
     (h : VRepW cfg Ok c m xs w) (hd : DtorSpec cfg w) :
     Post (destruct cfg c) m (fun res m' => res = .ok ()
       ∧ (∀ id, regionOf cfg c w = .blk id → 0 < cfg.ops.capacity w → m'.buf (.blk id) = none ∧ m'.cnt id = none)
       ∧ (regionOf cfg c w = .inl c → 0 < cfg.ops.capacity w → m'.buf (.inl c) = some (raws (cfg.ops.capacity w)))
       ∧ (∀ r', r' ≠ regionOf cfg c w → m'.buf r' = m.buf r')
       ∧ m'.ws = m.ws.set c (cfg.ops.dtor w).1 ∧ m'.cat = m.cat ∧ m'.hasRealloc = m.hasRealloc ∧ m'.nextId = m.nextId
-      ∧ (∀ id, (m'.buf (.blk id)).isSome → (m.buf (.blk id)).isSome)) := by
+      ∧ (∀ id, (m'.buf (.blk id)).isSome → (m.buf (.blk id)).isSome)
+      ∧ (∀ id, Region.blk id ≠ regionOf cfg c w → m'.cnt id = m.cnt id)) := by
   unfold destruct
   refine Post.bind (vbegin_post cfg m c w h.ws) ?_ (by okerr)
   rintro a m0 ⟨ha, rfl⟩; injection ha with ha; subst ha
@@ -902,7 +911,8 @@ theorem destruct_post {cfg : Cfg} {Ok : VB → Prop} (m : Mem α) (c : Nat) (xs 
     rintro _ m2 ⟨_, hfr⟩
     refine Post.mono (setW_post m2 c _) ?_
     rintro res m3 ⟨hr, rfl⟩
-    refine ⟨hr, ?_, ?_, ?_, ?_, hfr.keep.cat.trans hk1.cat, hfr.keep.hr.trans hk1.hr, hfr.keep.nid.trans hk1.nid, ?_⟩
+    refine ⟨hr, ?_, ?_, ?_, ?_, hfr.keep.cat.trans hk1.cat, hfr.keep.hr.trans hk1.hr, hfr.keep.nid.trans hk1.nid, ?_,
+      fun id' hne => (withWs_cnt _ _ _).trans ((hfr.cntOther id' (fun e => hne (by rw [hreg, e]))).trans (hk1.cnt id'))⟩
     · intro id' hid' _
       rw [hreg] at hid'; injection hid' with hid'; subst hid'
       exact ⟨by rw [withWs_buf, hfr.buf, View.unset_same], by rw [withWs_cnt]; exact hfr.cnt⟩
@@ -930,7 +940,8 @@ theorem destruct_post {cfg : Cfg} {Ok : VB → Prop} (m : Mem α) (c : Nat) (xs 
     rintro _ m2 ⟨_, hs2⟩
     refine Post.mono (setW_post m2 c _) ?_
     rintro res m3 ⟨hr, rfl⟩
-    refine ⟨hr, ?_, ?_, ?_, ?_, hs2.2.cat.trans hk1.cat, hs2.2.hr.trans hk1.hr, hs2.2.nid.trans hk1.nid, ?_⟩
+    refine ⟨hr, ?_, ?_, ?_, ?_, hs2.2.cat.trans hk1.cat, hs2.2.hr.trans hk1.hr, hs2.2.nid.trans hk1.nid, ?_,
+      fun id' _ => (withWs_cnt _ _ _).trans ((hs2.2.cnt id').trans (hk1.cnt id'))⟩
     · intro id' _ hpos; omega
     · intro hi _; rw [hreg] at hi; cases hi
     · intro r' hr'
@@ -948,7 +959,7 @@ theorem destruct_post {cfg : Cfg} {Ok : VB → Prop} (m : Mem α) (c : Nat) (xs 
     rintro _ m2 ⟨_, rfl⟩
     refine Post.mono (setW_post m2 c _) ?_
     rintro res m3 ⟨hr, rfl⟩
-    refine ⟨hr, ?_, ?_, ?_, ?_, hk1.cat, hk1.hr, hk1.nid, ?_⟩
+    refine ⟨hr, ?_, ?_, ?_, ?_, hk1.cat, hk1.hr, hk1.nid, ?_, fun id' _ => (withWs_cnt _ _ _).trans (hk1.cnt id')⟩
     · intro id' hid' _; rw [hreg] at hid'; cases hid'
     · intro _ hpos
       rw [withWs_buf]
@@ -962,6 +973,17 @@ theorem destruct_post {cfg : Cfg} {Ok : VB → Prop} (m : Mem α) (c : Nat) (xs 
     · intro id' hid'
       rw [withWs_buf] at hid'
       exact hn1 _ hid'
+
+/-- `~Vector()` (see `destruct_post_cnt`, which additionally states that the allocation counts of the other blocks are kept) -/
+theorem destruct_post {cfg : Cfg} {Ok : VB → Prop} (m : Mem α) (c : Nat) (xs : List α) (w : VB)
+    (h : VRepW cfg Ok c m xs w) (hd : DtorSpec cfg w) :
+    Post (destruct cfg c) m (fun res m' => res = .ok ()
+      ∧ (∀ id, regionOf cfg c w = .blk id → 0 < cfg.ops.capacity w → m'.buf (.blk id) = none ∧ m'.cnt id = none)
+      ∧ (regionOf cfg c w = .inl c → 0 < cfg.ops.capacity w → m'.buf (.inl c) = some (raws (cfg.ops.capacity w)))
+      ∧ (∀ r', r' ≠ regionOf cfg c w → m'.buf r' = m.buf r')
+      ∧ m'.ws = m.ws.set c (cfg.ops.dtor w).1 ∧ m'.cat = m.cat ∧ m'.hasRealloc = m.hasRealloc ∧ m'.nextId = m.nextId
+      ∧ (∀ id, (m'.buf (.blk id)).isSome → (m.buf (.blk id)).isSome)) :=
+  Post.mono (destruct_post_cnt m c xs w h hd) (fun _ _ ⟨h1, h2, h3, h4, h5, h6, h7, h8, h9, _⟩ => ⟨h1, h2, h3, h4, h5, h6, h7, h8, h9⟩)
 
 /-- the destructor law of SmallVector (`SmallLaws.dtor`) gives `DtorSpec` on words satisfying the SmallVector invariant -/
 theorem DtorSpec.small {cfg : Cfg} {P : Nat → Prop} (L : SmallLaws cfg.ops cfg.n) {w : VB} (hok : SOkP P cfg.ops cfg.n w) :
@@ -1000,6 +1022,38 @@ theorem destruct_small {cfg : Cfg} {P : Nat → Prop} (hfl : cfg.flavour = .smal
       ∧ m'.ws = m.ws.set c (cfg.ops.dtor w).1 ∧ m'.cat = m.cat ∧ m'.hasRealloc = m.hasRealloc ∧ m'.nextId = m.nextId
       ∧ (∀ id, (m'.buf (.blk id)).isSome → (m.buf (.blk id)).isSome)) := by
   refine Post.mono (destruct_post m c xs w h (DtorSpec.small L h.ok)) ?_
+  rintro res m' ⟨hr, hblk, hinl, hoth, hrest⟩
+  refine ⟨hr, hblk, ?_, hoth, hrest⟩
+  by_cases hreg : regionOf cfg c w = .inl c
+  · cases hs : cfg.ops.isSmall w with
+    | true =>
+      have hcap := (L.bounds w h.ok.1).2.2 hs
+      have := hinl hreg (by rw [hcap]; exact L.npos)
+      rw [hcap] at this; exact this
+    | false =>
+      -- heap state never resolves to the inline storage
+      exfalso
+      have hb := L.begin_small w
+      rw [hs] at hb
+      simp only [Bool.false_eq_true, ↓reduceIte] at hb
+      unfold regionOf at hreg
+      rcases h.ok.2 hs with ⟨id, hdyn, _, _⟩ | ⟨hdyn, _⟩
+      · rw [hb, hdyn] at hreg; cases hreg
+      · rw [hb, hdyn] at hreg; cases hreg
+  · rw [hoth _ (Ne.symm hreg)]
+    exact h.store.inl hreg hfl
+
+/-- `~SmallVector()` with the allocation counts of the other blocks -/
+theorem destruct_small_cnt {cfg : Cfg} {P : Nat → Prop} (hfl : cfg.flavour = .small) (L : SmallLaws cfg.ops cfg.n)
+    (m : Mem α) (c : Nat) (xs : List α) (w : VB) (h : VRepW cfg (SOkP P cfg.ops cfg.n) c m xs w) :
+    Post (destruct cfg c) m (fun res m' => res = .ok ()
+      ∧ (∀ id, regionOf cfg c w = .blk id → 0 < cfg.ops.capacity w → m'.buf (.blk id) = none ∧ m'.cnt id = none)
+      ∧ m'.buf (.inl c) = some (raws cfg.n)
+      ∧ (∀ r', r' ≠ regionOf cfg c w → m'.buf r' = m.buf r')
+      ∧ m'.ws = m.ws.set c (cfg.ops.dtor w).1 ∧ m'.cat = m.cat ∧ m'.hasRealloc = m.hasRealloc ∧ m'.nextId = m.nextId
+      ∧ (∀ id, (m'.buf (.blk id)).isSome → (m.buf (.blk id)).isSome)
+      ∧ (∀ id, Region.blk id ≠ regionOf cfg c w → m'.cnt id = m.cnt id)) := by
+  refine Post.mono (destruct_post_cnt m c xs w h (DtorSpec.small L h.ok)) ?_
   rintro res m' ⟨hr, hblk, hinl, hoth, hrest⟩
   refine ⟨hr, hblk, ?_, hoth, hrest⟩
   by_cases hreg : regionOf cfg c w = .inl c
